@@ -181,6 +181,10 @@ Proof. intros H. unfold c05_erase. cbn [c05_core]. now rewrite H. Qed.
 Theorem C05_mapped_generic L c g id ps n : c05_lookup (c05_m c) id = Some n -> c05_erase L c g (RGeneric id ps) = XRaw n.
 Proof. intros H. unfold c05_erase. cbn [c05_core]. now rewrite H. Qed.
 
+Theorem C05_mapped_name_stands L c g id n ps : c05_lookup (c05_m c) id = Some n ->
+  c05_erase L c g (RSimple id) = XRaw n /\ c05_erase L c g (RGeneric id ps) = XRaw n.
+Proof. intros. split; [now apply C05_mapped_simple | now apply C05_mapped_generic]. Qed.
+
 (* a generic parameter is never prefixed *)
 Theorem C05_param_not_prefixed L c g id :
   mem_str id g = true -> c05_lookup (c05_m c) id = None -> c05_erase L c g (RSimple id) = XName id [].
